@@ -108,9 +108,28 @@ def gen(rng):
     return c
 
 
+def first_type_arg(self_ty):
+    """the first argument of the self type that mentions a type slot, e.g. 'Vec<{T0}>' in
+    'Wr<Vec<{T0}>, {T1}>' (what the struct's first type parameter is instantiated with)"""
+    inner = self_ty[self_ty.index('<') + 1:self_ty.rindex('>')]
+    args, depth, cur = [], 0, ''
+    for ch in inner:
+        if ch in '<([':
+            depth += 1
+        elif ch in '>)]':
+            depth -= 1
+        if ch == ',' and depth == 0:
+            args.append(cur.strip()); cur = ''
+        else:
+            cur += ch
+    args.append(cur.strip())
+    return next(a for a in args if '{T' in a)
+
+
 def block_text(b):
-    return 'impl%s %s%s {\n    pub const NAME: &\'static str = "%s";\n    const SECRET: u8 = %d;\n    pub fn f() -> &\'static str { "%s" }\n}\n' % (
-        b.generics(), b.fmt(b.self_ty), b.where(), b.tag, int(b.tag[1:]) + 1, b.tag)
+    # `of` mentions a type parameter of the block in its signature (parameter order matters)
+    return 'impl%s %s%s {\n    pub const NAME: &\'static str = "%s";\n    const SECRET: u8 = %d;\n    pub fn f() -> &\'static str { "%s" }\n    pub fn of(_x: Option<&%s>) -> u8 { %d }\n}\n' % (
+        b.generics(), b.fmt(b.self_ty), b.where(), b.tag, int(b.tag[1:]) + 1, b.tag, b.fmt(first_type_arg(b.self_ty)), int(b.tag[1:]) + 1)
 
 
 def invocation(c, order=None):
@@ -136,7 +155,7 @@ def shadow_program(c):
 def positive_program(c, implemented):
     inside = ''.join('    pub fn secret_%d() -> u8 { <%s>::SECRET }\n' % (j, c.probes[j]) for j in implemented)
     src = gp.PRELUDE + gp.world_text(c.world) + module(c, inside) + 'use m::Wr;\n'
-    lines = ['    println!("V%d {} {} {}", <%s>::NAME, <%s>::f(), m::secret_%d());' % (j, c.probes[j], c.probes[j], j) for j in implemented]
+    lines = ['    println!("V%d {} {} {} {}", <%s>::NAME, <%s>::f(), m::secret_%d(), <%s>::of(None));' % (j, c.probes[j], c.probes[j], j, c.probes[j]) for j in implemented]
     return src + 'fn main() {\n%s\n}\n' % '\n'.join(lines)
 
 
@@ -168,8 +187,9 @@ def run(tier, seed, replay=None):
 RULE = 'generated inherent-mode invocations over local generic types (type / lifetime+type+const / const-before-type / two type parameters / tuple argument), 1-2 families for different const arguments or a generic const parameter, random parameter spelling, declaration order and bound placement; per case: shadow-trait program, a positive program reading pub items from outside and the private item from inside the module, negative programs (item of a probe matching no block; private item from outside) that must not compile; non-trivial = distinct accepted invocation with an implemented probe'
 
 
-def core(rng, n):
-    cases = [gen(rng) for _ in range(n)]
+def core(rng, n, cases=None):
+    cases = cases if cases is not None else [gen(rng) for _ in range(n)]
+    n = len(cases)
     corpus_violations = []
     import os
     cdir = os.path.join(cm.ROOT, 'corpus', 'C17')
@@ -223,7 +243,7 @@ def core(rng, n):
         stats['implemented'] += len(impl)
         for j in impl:
             b = c.blocks[tables[ci][j][0]]
-            want = '%s %s %d' % (b.tag, b.tag, int(b.tag[1:]) + 1)
+            want = '%s %s %d %d' % (b.tag, b.tag, int(b.tag[1:]) + 1, int(b.tag[1:]) + 1)
             stats['values_checked'] += 1
             if V.get(str(j)) != want:
                 violations.append(dict(kind='property', request=invocation(c), program=prog,
